@@ -2,7 +2,7 @@
 
 A *case* is (kind, transport, auth, nb, ops): kind in threaded | pool | oneshot | forking, transport in
 tcp | unix, ops = the token strings of lean/Driver/Server.lean (c<k>:<g|b|s|r>, k<k>:<g|b>, p<k>, l<k>,
-o<k>:<n>, d<k>:<n>, g<k>, a<k>, X, i<k>:<hbt..>, r<k>:<hex>).  `Session` starts the real server (threaded / pool / one-shot in this
+o<k>:<n>, d<k>:<n>, g<k>, a<k>, z<k>, X, i<k>:<hbt..>, r<k>:<hex>).  `Session` starts the real server (threaded / pool / one-shot in this
 process on port 0 or a temp unix path; the forking server in a subprocess, because fork and SIGCHLD want a
 main thread of their own), executes one op at a time with real client sockets, and renders what can be
 observed in the text form the driver prints:
@@ -678,6 +678,15 @@ class Client(object):
         except Exception:  # noqa
             pass
 
+    def reset(self):
+        """abrupt close by RST (SO_LINGER on, linger 0): what the server's pending read gets is ECONNRESET, not end-of-stream"""
+        try:
+            if self.sock.family == socket.AF_INET:
+                self.sock.setsockopt(socket.SOL_SOCKET, socket.SO_LINGER, struct.pack("ii", 1, 0))
+        except OSError:
+            pass
+        self.abrupt()
+
     def sees_eof(self):
         """non-blocking: has this client's socket delivered end-of-stream (monotone)"""
         if not self.open or self.eof:
@@ -777,7 +786,7 @@ class Session(object):
             if res == "ok":
                 self.clients[k] = c
             return res
-        if t in "plgai":
+        if t in "plgaiz":
             k = int(rest.split(":")[0])
             c = self.clients.get(k)
             if c is None or not c.open:
@@ -791,6 +800,9 @@ class Session(object):
                 return "-"
             if t == "a":
                 c.abrupt()
+                return "-"
+            if t == "z":
+                c.reset()
                 return "-"
             if t == "i":
                 c.send_raw(b"".join(ITEM_BYTES[x]() for x in rest.split(":")[1]))
@@ -921,6 +933,73 @@ def run_case(kind, transport, auth, nb, toks, expect=None, ceiling=CEILING, call
         sess.close()
 
 
+def exhaust_child_main(argv):
+    """python servers.py --exhaust-child <threaded|pool> <n>: a server with an authenticator under a low RLIMIT_NOFILE;
+    n clients connect and reset (half of them at once, half after one byte of their credentials); then a well-behaved
+    client must still be served.  Prints one JSON line."""
+    import resource
+    kind, n = argv[0], int(argv[1])
+    sys.path.insert(0, os.environ.get("RPYC_REPO", "/repo"))
+    import rpyc
+    from rpyc.utils import server as S
+    threading.excepthook = lambda args: None
+    limit = nfds() + 40
+    resource.setrlimit(resource.RLIMIT_NOFILE, (limit, resource.getrlimit(resource.RLIMIT_NOFILE)[1]))
+    cls = dict(threaded=S.ThreadedServer, pool=S.ThreadPoolServer)[kind]
+    kw = dict(nbThreads=3) if kind == "pool" else {}
+
+    def two_byte_auth(sock):
+        from rpyc.utils.authenticators import AuthenticationError
+        data = sock.recv(1)
+        data += sock.recv(1) if data else b""
+        if data != b"AA":
+            raise AuthenticationError("wrong credentials")
+        return sock, "ok"
+    srv = cls(make_service(lambda *a: None), hostname="127.0.0.1", port=0, auto_register=False, logger=quiet_logger(),
+              authenticator=two_byte_auth, **kw)
+    t = srv._start_in_thread()
+    linger = struct.pack("ii", 1, 0)
+    for i in range(n):
+        try:
+            s = socket.socket(socket.AF_INET, socket.SOCK_STREAM)
+            s.setsockopt(socket.SOL_SOCKET, socket.SO_LINGER, linger)
+            s.settimeout(2)
+            s.connect(("127.0.0.1", srv.port))
+            if i % 2:
+                s.sendall(b"A")
+                time.sleep(0.002)
+            s.close()
+        except OSError:
+            break
+    wait_for(lambda: len(srv.clients) == 0, 3.0)
+    out = dict(limit=limit, resets=n, tracked=len(srv.clients), fds=nfds(), accept_alive=t.is_alive(),
+               listener_open=srv.listener.fileno() != -1)
+    try:
+        s = socket.create_connection(("127.0.0.1", srv.port), timeout=2)
+        s.sendall(b"AA")
+        s.settimeout(None)
+        conn = rpyc.connect_stream(rpyc.SocketStream(s), config=dict(sync_request_timeout=3))
+        from rpyc.core import consts
+        out["good_client"] = "pong" if conn.sync_request(consts.HANDLE_PING, b"x") == b"x" else "wrong"
+    except Exception as ex:  # noqa
+        out["good_client"] = "%s: %s" % (type(ex).__name__, ex)
+    print(json.dumps(out), flush=True)
+    os._exit(0)
+
+
+def run_exhaustion(kind, n=120, timeout=60):
+    env = dict(os.environ)
+    env["RPYC_REPO"] = os.environ.get("RPYC_REPO", "/repo")
+    p = subprocess.run([sys.executable, os.path.abspath(__file__), "--exhaust-child", kind, str(n)], stdout=subprocess.PIPE,
+                       stderr=subprocess.DEVNULL, env=env, timeout=timeout)
+    lines = [l for l in p.stdout.decode().split("\n") if l.startswith("{")]
+    if not lines:
+        raise Infra("exhaustion scenario produced no result (exit %s)" % p.returncode)
+    return json.loads(lines[-1])
+
+
 if __name__ == "__main__":
     if len(sys.argv) > 1 and sys.argv[1] == "--forking-child":
         sys.exit(forking_child_main(sys.argv[2:]))
+    if len(sys.argv) > 1 and sys.argv[1] == "--exhaust-child":
+        sys.exit(exhaust_child_main(sys.argv[2:]))
